@@ -58,7 +58,8 @@ def row_alphabet(tname):
             if ty == F8:
                 r[name] = float(k) + 0.5 * j
             elif name == spec.get("selfref"):
-                r[name] = (-1, 0, 1, 0)[k]
+                # includes a forward reference (row k=1 -> row 2) and backward ones
+                r[name] = (-1, 2, 0, 1)[k]
             else:
                 r[name] = k + j
         for j, (name, ty) in enumerate(spec["ragged"]):
@@ -66,7 +67,7 @@ def row_alphabet(tname):
             if ty == F8:
                 r[name] = tuple(float(k) + i for i in range(n))
             elif name == spec.get("selfref_ragged"):
-                r[name] = tuple((-1, 0, 1)[(k + i) % 3] for i in range(n))
+                r[name] = [(), (2, -1, 0), (), (1,)][k]
             else:
                 r[name] = tuple((65 + k + i) % 128 for i in range(n))
         rows.append(r)
@@ -309,8 +310,9 @@ class Sim:
         self.alpha = row_alphabet(tname)
         self.t = new_table(tname, incr)
         self.model = []
-        if init == "two":
-            for k in (1, 2):
+        if init in ("two", "three"):
+            # "three": row 0 refers forward to row 2, row 1 is referred to by nobody, row 2 refers back to row 0
+            for k in ((1, 2) if init == "two" else (1, 0, 2)):
                 self.t.add_row(**to_kwargs(tname, self.alpha[k]))
                 self.model.append(dict(self.alpha[k]))
 
@@ -593,9 +595,12 @@ def shards(tier, seed):
     specs = []
     depth = 2 if tier == "quick" else 3
     for tname in TABLES:
-        for init in ("empty", "two"):
+        for init in ("empty", "two", "three"):
             for incr in (0, 1):
-                if tier == "quick" and incr == 1 and init == "empty":
+                if tier == "quick" and incr == 1 and init != "two":
+                    continue
+                if init == "three" and "selfref" not in TABLES[tname] and "selfref_ragged" not in TABLES[tname] \
+                        and tier == "quick":
                     continue
                 parts = 6 if tier == "quick" else 48
                 for p in range(parts):
